@@ -262,6 +262,18 @@ func CompareInst(st Stmt, mode int, inst x86asm.Inst) *Mismatch {
 		if w := want[0]; w.Kind == KReg && RegBits(w.Reg) != inst.DataSize {
 			return mm("size", "wrote %s %s, decoded with %d-bit operand", st.Mn, w.Reg, inst.DataSize)
 		}
+		// an immediate is pushed at the stack width of the mode unless its value needs more bits than that
+		if w := want[0]; w.Kind == KImm && inst.DataSize != mode {
+			lo, hi := -(int64(1) << uint(mode-1)), int64(1)<<uint(mode)-1
+			if w.Imm >= lo && w.Imm <= hi {
+				return mm("size", "wrote %s %s in %d-bit mode (the value fits %d bits), decoded with a %d-bit stack operand", st.Mn, w.Text, mode, mode, inst.DataSize)
+			}
+		}
+		// a segment register is pushed/popped at the stack width of the mode: an operand-size prefix changes
+		// how far the stack pointer moves
+		if w := want[0]; w.Kind == KSreg && inst.DataSize != mode {
+			return mm("size", "wrote %s %s in %d-bit mode, decoded with a %d-bit stack operand (operand-size prefix)", st.Mn, w.Reg, mode, inst.DataSize)
+		}
 	}
 	return nil
 }
